@@ -13,7 +13,7 @@ use std::net::IpAddr;
 use std::num::NonZeroUsize;
 use std::sync::Arc;
 use std::time::SystemTime;
-use tokio::io::{AsyncRead, AsyncReadExt, AsyncWrite, BufStream};
+use tokio::io::{AsyncBufReadExt, AsyncRead, AsyncReadExt, AsyncWrite, BufStream};
 use tokio::net::TcpStream;
 use tokio_rustls::rustls::{OwnedTrustAnchor, RootCertStore};
 use tokio_rustls::{client::TlsStream, TlsConnector};
@@ -1112,6 +1112,37 @@ impl Server {
 
         // Pass the data back to the client.
         Ok(bytes)
+    }
+
+    /// Read and throw away whatever the server has sent so far.
+    ///
+    /// Unlike `recv`, this can be dropped at any await point without losing track of message
+    /// boundaries (it never parses), so it is safe to use as a `select!` branch. Mirrors use
+    /// it: their replies are discarded anyway.
+    pub async fn discard_incoming(&mut self) -> Result<usize, Error> {
+        let available = match self.stream.fill_buf().await {
+            Ok(buf) => buf.len(),
+            Err(err) => {
+                self.bad = true;
+                return Err(Error::SocketError(format!(
+                    "Error reading from server socket - Error: {:?}",
+                    err
+                )));
+            }
+        };
+
+        if available == 0 {
+            self.bad = true;
+            return Err(Error::SocketError(
+                "Server closed the connection".to_string(),
+            ));
+        }
+
+        self.stream.consume(available);
+        self.stats().data_received(available);
+        self.last_activity = SystemTime::now();
+
+        Ok(available)
     }
 
     // Determines if the server already has a prepared statement with the given name
